@@ -674,3 +674,57 @@ fn groups(m: &Model, ctx: &mut Ctx, ev: &Evaluator) {
         }
     }
 }
+
+/// The synthetic member the lexer builds for a `[[ ]]` group that holds nothing but COMPONENTS OF notations is named after the
+/// first of them; the generators build Rust identifiers from that name (format_ident!: a panic on anything but identifier
+/// characters), so whatever the referenced type is written like (`B`, `Mod.B`, `obj.&Field`), the name must consist of ASN.1
+/// identifier characters (C08.groupname).
+pub fn group_names(m: &Model, ctx: &mut Ctx, rule: &str) {
+    let consts = const_resolver(m);
+    let ev = Evaluator { consts: &consts, call_hook: &crate::eval::no_hook, inline: None };
+    let prefix = m.consts.iter().find(|c| c.name == "INTERNAL_EXTENSION_GROUP_NAME_PREFIX").and_then(|c| lit_of(&c.expr));
+    let Some(Val::Str(prefix)) = prefix else {
+        ctx.fail_closed(rule, "constant INTERNAL_EXTENSION_GROUP_NAME_PREFIX not found");
+        return;
+    };
+    let Some(f) = anchor_fn(m, ctx, rule, None, "extension_group", Some("lexer::sequence")) else { return };
+    struct C {
+        out: Vec<syn::ExprClosure>,
+    }
+    impl model::DeepCb for C {
+        fn expr(&mut self, e: &syn::Expr) {
+            if let syn::Expr::Closure(c) = e {
+                if tok(&c.body).contains("SequenceComponent::Member") {
+                    self.out.push(c.clone());
+                }
+            }
+        }
+    }
+    let mut c = C { out: vec![] };
+    model::deep_walk_block(&f.block, &mut c);
+    if c.out.len() != 1 {
+        ctx.fail_closed(rule, "extension_group: mapping closure not found");
+        return;
+    }
+    for path in ["B", "foo.&Bar", "Mod-A.B"] {
+        let key = format!("group of COMPONENTS OF {}", path);
+        ctx.oblige(rule, &key, true);
+        let list = Val::List(vec![Val::Ctor("ComponentsOf".into(), vec![Val::Str(path.into())], BTreeMap::new())]);
+        match ev.apply_closure(&syn::Expr::Closure(c.out[0].clone()), &[list], &Env::new()) {
+            Ok(Val::Ctor(n, p, _)) if n == "Member" => {
+                let name = match &p[0] { Val::Ctor(_, _, f) => f.get("name").cloned(), _ => None };
+                match name {
+                    Some(Val::Str(nm)) => {
+                        let rest = nm.strip_prefix(prefix.as_str()).unwrap_or(&nm);
+                        if !nm.starts_with(prefix.as_str()) || !rest.chars().all(|ch| ch.is_ascii_alphanumeric() || ch == '-' || ch == '_') {
+                            ctx.violate(rule, "group-name:not-an-identifier", &f.file, f.line, &format!("`[[ COMPONENTS OF {} ]]` becomes a synthetic member named {:?}: the generators turn that name into a Rust identifier with format_ident!, which panics on `.`, `&` and blanks — the name must be the prefix followed by identifier characters", path, nm));
+                        }
+                    }
+                    o => ctx.fail_closed(rule, &format!("[{}]: name {:?}", key, o.map(|v| v.show()))),
+                }
+            }
+            Ok(o) => ctx.violate(rule, "group-shape", &f.file, f.line, &format!("a [[ ]] group becomes {}, expected exactly one member", o.show())),
+            Err(e) => ctx.fail_closed(rule, &format!("[{}]: {}", key, e)),
+        }
+    }
+}
